@@ -53,9 +53,9 @@ type call struct {
 
 type world struct {
 	stores []*metastore.NodeStore
-	c     *metastore.Cluster
-	calls []*call
-	step  int
+	c      *metastore.Cluster
+	calls  []*call
+	step   int
 }
 
 func mk(c Case) (sched.Scenario, *world) {
